@@ -12,7 +12,7 @@ namespace CtrlVerif
 open Matrix
 
 variable {K : Type*} [Field K]
-variable {σ σ₁ σ₂ ι ι₁ ι₂ o o₁ o₂ : Type*}
+variable {σ σ' σ₁ σ₂ ι ι₁ ι₂ o o₁ o₂ κ μ : Type*}
 variable [Fintype σ] [DecidableEq σ] [Fintype σ₁] [DecidableEq σ₁] [Fintype σ₂] [DecidableEq σ₂]
 
 namespace SS
@@ -74,6 +74,110 @@ theorem smul_one_sub_fromBlocks (s : K) (A₁ : Matrix σ₁ σ₁ K) (A₁₂ :
       = fromBlocks (s • 1 - A₁) (-A₁₂) (-A₂₁) (s • 1 - A₂) := by
   rw [← fromBlocks_one, fromBlocks_smul, sub_eq_add_neg, fromBlocks_neg, fromBlocks_add]
   simp [sub_eq_add_neg]
+
+/-! ### `lft`: closing an algebraic loop -/
+
+section loop
+
+variable {τ ω ν ζ : Type*} [Fintype τ] [DecidableEq τ] [Fintype ν] [DecidableEq ν]
+
+/-- Closing the algebraic loop `F v = RT ξ + RH w` of a system `ξ' = A0 ξ + Bw w + Bv v`,
+`z = C0 ξ + Dw w + Dv v` by `v = Finv (RT ξ + RH w)`: if `Ξ`, `V` solve the state and loop
+equations at `s`, the closed system responds with `C0 Ξ + Dw + Dv V`. -/
+theorem loop_resp (A0 : Matrix τ τ K) (Bw : Matrix τ ω K) (Bv : Matrix τ ν K)
+    (C0 : Matrix ζ τ K) (Dw : Matrix ζ ω K) (Dv : Matrix ζ ν K)
+    (RT : Matrix ν τ K) (RH : Matrix ν ω K) (F Finv : Matrix ν ν K) (hF : Finv * F = 1)
+    (s : K) (Ξ : Matrix τ ω K) (V : Matrix ν ω K)
+    (hΞ : (s • (1 : Matrix τ τ K) - A0) * Ξ = Bw + Bv * V)
+    (hV : F * V = RT * Ξ + RH) :
+    (⟨A0 + Bv * (Finv * RT), Bw + Bv * (Finv * RH), C0 + Dv * (Finv * RT),
+      Dw + Dv * (Finv * RH)⟩ : SS τ ω ζ K).Resp s (C0 * Ξ + Dw + Dv * V) := by
+  have hV' : V = Finv * (RT * Ξ) + Finv * RH := by
+    have := congrArg (fun M => Finv * M) hV
+    simp only [← Matrix.mul_assoc, hF, Matrix.one_mul] at this
+    rw [this, Matrix.mul_add]
+  refine ⟨Ξ, ?_, ?_⟩
+  · show (s • (1 : Matrix τ τ K) - (A0 + Bv * (Finv * RT))) * Ξ = Bw + Bv * (Finv * RH)
+    rw [sub_add_eq_sub_sub, Matrix.sub_mul, hΞ]
+    nth_rewrite 1 [hV']
+    simp only [Matrix.mul_add, Matrix.mul_assoc]
+    abel
+  · show C0 * Ξ + Dw + Dv * V = (C0 + Dv * (Finv * RT)) * Ξ + (Dw + Dv * (Finv * RH))
+    nth_rewrite 1 [hV']
+    simp only [Matrix.mul_add, Matrix.add_mul, Matrix.mul_assoc]
+    abel
+
+end loop
+
+/-- the block equations behind a response with partitioned inputs and outputs. -/
+theorem Resp.blocks {G : SS σ (ι₁ ⊕ ι₂) (o₁ ⊕ o₂) K} {s : K}
+    {Y11 : Matrix o₁ ι₁ K} {Y12 : Matrix o₁ ι₂ K} {Y21 : Matrix o₂ ι₁ K} {Y22 : Matrix o₂ ι₂ K}
+    (h : G.Resp s (fromBlocks Y11 Y12 Y21 Y22)) :
+    ∃ (X1 : Matrix σ ι₁ K) (X2 : Matrix σ ι₂ K),
+      (s • (1 : Matrix σ σ K) - G.A) * X1 = G.B.toCols₁ ∧
+      (s • (1 : Matrix σ σ K) - G.A) * X2 = G.B.toCols₂ ∧
+      Y11 = G.C.toRows₁ * X1 + G.D.toBlocks₁₁ ∧ Y12 = G.C.toRows₁ * X2 + G.D.toBlocks₁₂ ∧
+      Y21 = G.C.toRows₂ * X1 + G.D.toBlocks₂₁ ∧ Y22 = G.C.toRows₂ * X2 + G.D.toBlocks₂₂ := by
+  obtain ⟨X, hX, hY⟩ := h
+  refine ⟨X.toCols₁, X.toCols₂, ?_, ?_, ?_⟩
+  · rw [← hX]; ext i j; simp [Matrix.mul_apply]
+  · rw [← hX]; ext i j; simp [Matrix.mul_apply]
+  · rw [← fromCols_toCols X, ← fromRows_toRows G.C, fromRows_mul_fromCols,
+      ← fromBlocks_toBlocks G.D, fromBlocks_add, fromBlocks_inj] at hY
+    simpa using hY
+
+section lft
+
+variable [Fintype σ'] [DecidableEq σ']
+variable [Fintype o₂] [DecidableEq o₂] [Fintype ι₂] [DecidableEq ι₂]
+
+/-- one of `Ares`, `Bres`, `Cres`, `Dres` as `diag(P, Q) + [[0, M], [N, 0]] T`. -/
+theorem lft_block_aux {a b c d : Type*} (P : Matrix a c K) (Q : Matrix b d K)
+    (M : Matrix a ι₂ K) (N : Matrix b o₂ K) (T : Matrix (o₂ ⊕ ι₂) (c ⊕ d) K) :
+    fromBlocks (P + M * T.toBlocks₂₁) (M * T.toBlocks₂₂) (N * T.toBlocks₁₁) (Q + N * T.toBlocks₁₂)
+      = fromBlocks P 0 0 Q + fromBlocks 0 M N 0 * T := by
+  conv_rhs => rw [← fromBlocks_toBlocks T]
+  rw [fromBlocks_multiply, fromBlocks_add]
+  simp
+
+/-- the blocks the code builds, in compact form: `A0 + Bv T`, `Bw + Bv H`, `C0 + Dv T`,
+`Dw + Dv H` with `T = F⁻¹ RT`, `H = F⁻¹ RH`. -/
+theorem lft_eq_compact (G : SS σ (ι₁ ⊕ ι₂) (o₁ ⊕ o₂) K) (H : SS σ' (o₂ ⊕ κ) (ι₂ ⊕ μ) K)
+    (Finv : Matrix (o₂ ⊕ ι₂) (o₂ ⊕ ι₂) K) :
+    G.lft H Finv =
+      ⟨fromBlocks G.A 0 0 H.A
+          + fromBlocks 0 G.B.toCols₂ H.B.toCols₁ 0 * (Finv * fromBlocks G.C.toRows₂ 0 0 H.C.toRows₁),
+        fromBlocks G.B.toCols₁ 0 0 H.B.toCols₂
+          + fromBlocks 0 G.B.toCols₂ H.B.toCols₁ 0
+            * (Finv * fromBlocks G.D.toBlocks₂₁ 0 0 H.D.toBlocks₁₂),
+        fromBlocks G.C.toRows₁ 0 0 H.C.toRows₂
+          + fromBlocks 0 G.D.toBlocks₁₂ H.D.toBlocks₂₁ 0
+            * (Finv * fromBlocks G.C.toRows₂ 0 0 H.C.toRows₁),
+        fromBlocks G.D.toBlocks₁₁ 0 0 H.D.toBlocks₂₂
+          + fromBlocks 0 G.D.toBlocks₁₂ H.D.toBlocks₂₁ 0
+            * (Finv * fromBlocks G.D.toBlocks₂₁ 0 0 H.D.toBlocks₁₂)⟩ := by
+  simp only [SS.lft, Matrix.mul_fromCols, toCols₁_fromCols, toCols₂_fromCols]
+  congr 1 <;> exact lft_block_aux _ _ _ _ _
+
+
+/-- `diag(P, Q)` by rows, in terms of the projections `[I 0]`, `[0 I]` of the exogenous inputs. -/
+theorem fromBlocks_diag_eq_fromRows {a b c d : Type*} [Fintype c] [DecidableEq c] [Fintype d]
+    [DecidableEq d] (P : Matrix a c K) (Q : Matrix b d K) :
+    fromBlocks P 0 0 Q
+      = fromRows (P * fromCols (1 : Matrix c c K) (0 : Matrix c d K))
+          (Q * fromCols (0 : Matrix d c K) (1 : Matrix d d K)) := by
+  rw [Matrix.mul_fromCols, Matrix.mul_fromCols, ← fromRows_fromCols_eq_fromBlocks]
+  simp
+
+theorem fromRows_add_fromRows {a b c : Type*} (A A' : Matrix a c K) (B B' : Matrix b c K) :
+    fromRows A B + fromRows A' B' = fromRows (A + A') (B + B') := by
+  ext (i | i) j <;> simp
+
+theorem fromCols_add_fromCols {a b c : Type*} (A A' : Matrix a b K) (B B' : Matrix a c K) :
+    fromCols A B + fromCols A' B' = fromCols (A + A') (B + B') := by
+  ext i (j | j) <;> simp
+
+end lft
 
 end SS
 
